@@ -91,7 +91,7 @@ ASSUMPTIONS = [
     "the inequalities are evaluated in float64 from the returned dt, the simulator's own dx attribute and the stored velocity array",
     "8 eps_t relative slack on both limits and on linearity (a-priori bound: worst-case rounding of the documented formula is 3.5 eps_t)",
     "maximum-principle slack 8 eps_t max|f| (a-priori rounding bound ~6 eps_t max|f| in 3-D; measured excess on flat fields <= 0.1 of the slack)",
-    "nu > 0 only (a simulator with nu = 0 has no diffusion limit)",
+    "nu = 0 is included (6 % of the draws): no diffusion limit, the other clauses apply",
 ]
 REQUIRE = {
     "dt_calls": 400,
@@ -186,6 +186,8 @@ def _draw_params(rng, d, real_t):
         nu = _loguniform(rng, 1e-3, 1e2)
         dx = _loguniform(rng, 1.0 / 512, 0.05)
     cfl = 1.0 if rng.random() < 0.15 else _loguniform(rng, 1e-3, 1.0)
+    if rng.random() < 0.06:
+        nu = 0.0  # inviscid ("any viscosity"): no diffusion limit, the step must still be finite, positive and within the CFL limit
     return nu, dx, cfl
 
 
@@ -210,9 +212,11 @@ def _check_dt(rec, get_dt, vel, d, dx, nu, cfl, real_t, rng, cls, meta):
     lim_d = 0.9 / (2 * d)
     # independent float64 evaluation of the two documented limits (regime classification only)
     adv = cfl * dx / umax if umax > 0 else np.inf
-    dif = lim_d * dx * dx / nu
+    dif = lim_d * dx * dx / nu if nu > 0 else np.inf
     regime = "diffusion" if dif < adv else "advection"
-    dec = int(np.floor(np.log10(nu / dx**2)))
+    dec = int(np.floor(np.log10(nu / dx**2))) if nu > 0 else "inviscid"
+    if nu == 0:
+        rec.count("dt_queries_with_zero_viscosity")
     ps = [1.0, 0.5, float(rng.uniform(1e-3, 1.0)), 0.3]
     dts = {}
     for p in ps:
